@@ -106,11 +106,29 @@ def check_struct(ctx, ty, spec, rules=("R-1", "R-2", "R-3", "R-4")):
             expected[k] = expected.get(k, 0) + 1
     extra = sorted(set(cen) - set(expected))
     missing = sorted(set(expected) - set(cen))
+    if any(d.get("expanded") for d in table.values()):
+        # a slot decoded by the loop `try_as_array_then_convert` stands for: the helper's one reject site is the array test (already
+        # counted once for the input) plus the failures of the element decoder inside that loop
+        missing = [k for k in missing if k != "propagate:" + codec.TRY_ARRAY_CONVERT]
+        extra = [k for k in extra if not all(_inside_a_loop(f, o["bb"]) for o in cen[k])]
     ctx.ob(R3, "census:%s" % ty, not extra and not missing,
            "the reject sites of %s are exactly {not an array, wrong arity, one per slot}; extra=%s missing=%s" % (ty, extra, missing),
            where=f.span, detail={"found": {k: len(v) for k, v in cen.items()}, "expected": expected},
            sample={"type": ty, "reject_sites": {k: len(v) for k, v in cen.items()}})
     return table
+
+
+def _inside_a_loop(f, bb):
+    """bb lies in the body of some loop of f, or hangs off one (the error exit of a loop body)"""
+    if f.cfg.in_loop(bb):
+        return True
+    seen, cur = set(), bb
+    while cur not in seen and len(f.cfg.pred[cur]) == 1:
+        seen.add(cur)
+        cur = f.cfg.pred[cur][0]
+        if f.cfg.in_loop(cur):
+            return True
+    return False
 
 
 def check_protected_bstr(ctx, rule):
